@@ -280,3 +280,20 @@ Proof.
   pose proof (next_packet_potential skip s Hs) as (Hs1 & _).
   apply (next_packet_finished skip' _ Hs1 Hr).
 Qed.
+
+(* a truncated final packet: fewer bytes left than a packet => ErrNoMorePackets (not an error), and the tail is consumed *)
+Theorem truncated_tail skip s pb : dinv2 s -> d_pb s = Some pb -> rem (d_reader s) < pb_size pb ->
+  fst (next_packet skip s) = Err E_nomore /\ rem (d_reader (snd (next_packet skip s))) = 0.
+Proof.
+  intros (Hinv & Hf & _) Epb Hlt. pose proof Hinv as (Hr & Hpb & _). rewrite Epb in Hpb.
+  unfold next_packet. rewrite Epb. unfold packet_buffer_next. unfold C_MpegTsPacketSize in *.
+  destruct (pb_size pb <? 0) eqn:E1; [lia|]. destruct (pb_size pb =? 0) eqn:E2; [lia|].
+  unfold packets_left. cbn [pb_next].
+  pose proof (read_full_nofault (d_reader s) (pb_size pb) Hr Hf ltac:(lia)) as (_ & _ & R).
+  destruct (read_full (d_reader s) (pb_size pb)) as [[bs e] r1]. cbn [fst snd] in *.
+  destruct e as [[| |]|]; cbv beta iota in R; cbn [fst snd log_consulted set_reader d_reader].
+  - destruct R as (_ & _ & R & _). exfalso; apply R; reflexivity.
+  - split; [reflexivity|tauto].
+  - split; [reflexivity|tauto].
+  - lia.
+Qed.
